@@ -6,7 +6,7 @@
 From Coq Require Import List ZArith Lia Bool Arith.
 Import ListNotations.
 Require Import Vault Row Table Grid Tableabs Transform Transformspec Transformproof Transformproof2 Transformproof3
-               Transformproof4 Transformproof5 Transformproof7 Transformproof9 Transformproof10 Transformproof11 Transformproof12 Transformproof13.
+               Transformproof4 Transformproof5 Transformproof7 Transformproof9 Transformproof10 Transformproof11 Transformproof12 Transformproof13 Transformproof14 Transformchk.
 Open Scope Z_scope.
 
 (* ================= rstrip ================= *)
@@ -166,6 +166,21 @@ Example C17_span_hypotheses_inhabited : WF ex_table /\ area_alg_ok ex_alg 1 0 2 
   exists st' st'', t_set_span ex_alg 1 0 2 1 false 0 ex_table = Some (st', true) /\
                    t_del_span ex_alg 1 0 st' = Some (st'', true) /\ abs_t st'' = abs_t ex_table.
 Proof. exact ex_inhabited. Qed.
+
+(* ================= the laws the correspondence checker evaluates are theorems ================= *)
+(* Transformchk.chk_x evaluates, on the abstracted implementation states, transpose_law / strip_law / set_span_law; the
+   same decidable predicates hold of the grid meaning for every grid (strip: C17_rstrip_removes_only_trailing_empties and
+   C17_optimize_width_removes_only_trailing_empties above), so "the implementation's step satisfies the law" is compared
+   against a statement that is proved, not against a second formulation *)
+Theorem C17_transpose_law_holds : forall g : gridT, transpose_law g (g_transpose g) = true.
+Proof. exact g_transpose_law. Qed.
+Print Assumptions C17_transpose_law_holds.
+
+Theorem C17_set_span_law_holds : forall (a : calg) (x y z t mid : Z) (g g' : gridT) (r : bool),
+  0 <= x <= z -> 0 <= y <= t -> alg_ok_for a (XSetSpan x y z t false mid) g = true ->
+  g_set_span a x y z t false mid g = (g', r) -> set_span_law a x y z t r g g' = true.
+Proof. exact g_set_span_law. Qed.
+Print Assumptions C17_set_span_law_holds.
 
 (* ================= CSV (partial) ================= *)
 (* value level, the csv module (writer, Sniffer, reader) abstract: for a matrix whose values are None or in the stable
